@@ -674,6 +674,9 @@ func TestDriver(t *testing.T) {
 	}
 	w.replayAll(behs)
 	w.mutatedBlocks()
+	if p := os.Getenv("VERIF_CID_CASES"); p != "" {
+		w.cidCases(p)
+	}
 	writeReport(t, rep)
 }
 
